@@ -890,6 +890,55 @@ func runHistory(cfg *config, id int, r *hx.Rng, o histOpts) {
 // runDeep grows one narrow table far enough for the tree to split an internal node (291 leaves,
 // about 1200 rows), with a second table and the catalog sharing the file, then keeps going
 // through updates, deletes, a flush, a reload and a crash with recovery.
+// runPointOps: a table of 13-60 rows (two or three levels of pages), then every row deleted or
+// rewritten by a statement that selects exactly that row - in particular the rows whose key is a
+// separator in an internal node, first, middle and last.
+func runPointOps(cfg *config, id int, r *hx.Rng) {
+	cfg.tr.Case(id)
+	d := &rdb{cfg: cfg, name: fmt.Sprintf("pt%d", id)}
+	defer d.close()
+	d.createdb()
+	t := &gtable{name: "t1", cols: []gcol{{"c0", "int"}, {"c1", "varchar"}}}
+	d.stmt(createText(t))
+	n := r.Range(13, 60)
+	for at := 0; at < n; {
+		k := r.Range(1, 9)
+		var rs [][]interface{}
+		for i := 0; i < k && at < n; i++ {
+			rs = append(rs, []interface{}{int64(at), fmt.Sprintf("v%d", at)})
+			at++
+		}
+		d.stmt(insertText(t, rs, false))
+	}
+	d.selectEvery()
+	if r.Bool() {
+		d.reopen()
+	}
+	perm := make([]int, n)
+	for i := range perm {
+		perm[i] = i
+	}
+	for i := n - 1; i > 0; i-- {
+		j := r.Intn(i + 1)
+		perm[i], perm[j] = perm[j], perm[i]
+	}
+	for i, v := range perm {
+		if r.Chance(1, 4) {
+			d.stmt(fmt.Sprintf("UPDATE t1 SET c1 = 'w%d' WHERE c0 = %d", v, v))
+		} else {
+			d.stmt(fmt.Sprintf("DELETE FROM t1 WHERE c0 = %d", v))
+		}
+		if i%7 == 6 {
+			d.selectEvery()
+		}
+	}
+	d.selectEvery()
+	d.dump()
+	d.roots()
+	cfg.st.Seen("point-ops", true)
+	cfg.st.Add("statements", n)
+}
+
 func runDeep(cfg *config, id int, r *hx.Rng, rows int, crashes bool) {
 	cfg.tr.Case(id)
 	d := &rdb{cfg: cfg, name: fmt.Sprintf("deep%d", id)}
@@ -1036,6 +1085,11 @@ func runDB(cfg *config) {
 		if cfg.tier == "thorough" {
 			id++
 			runDeep(cfg, id, r.Fork(), 2900, false)
+		}
+		// every row of a table of several leaves addressed on its own (point lookups from the root)
+		for i := 0; i < 2*cfg.scale; i++ {
+			id++
+			runPointOps(cfg, id, r.Fork())
 		}
 		for i := 0; i < n; i++ {
 			id++
